@@ -35,6 +35,9 @@ func impInput(bc *core.BlockChain, cfg *params.ChainConfig, block *types.Block) 
 	fmt.Fprintf(&sb, " H=%x,%x,%x,%x,%s,%d", h.TxHash, h.UncleHash, h.Root, h.ReceiptHash, bloomHex(h.Bloom), h.GasUsed)
 	fmt.Fprintf(&sb, " B=%x,%x", types.DeriveSha(block.Transactions()), types.CalcUncleHash(block.Uncles()))
 	parent := bc.GetBlock(block.ParentHash(), block.NumberU64()-1)
+	if parent == nil {
+		return "" // the parent itself was refused: reported by the caller
+	}
 	st, err := bc.StateAt(parent.Root())
 	if err != nil {
 		return ""
@@ -97,8 +100,15 @@ func (c *treeCtx) validCases(run *hx.Run, rt interface{}) {
 	for _, id := range t.ParentClosedOrder(hxRng(1)) {
 		n := t.Nodes[id]
 		run.Current(fmt.Sprintf("valid-case %s node %d", c.name, id))
+		if bc.GetBlock(n.Block.ParentHash(), n.Block.NumberU64()-1) == nil {
+			continue
+		}
 		line := impInput(bc, t.Cfg, n.Block)
 		_, err := bc.InsertChain(types.Blocks{n.Block})
+		if err != nil {
+			run.Violate("valid-block-refused", "valid-block-refused:"+errClass(err), map[string]interface{}{"tree": c.name, "node": id, "delivery": "parent-closed order, one block per call, archive"},
+				fmt.Sprintf("node %d (height %d) refused: %v", id, n.Block.NumberU64(), err))
+		}
 		if line == "" {
 			continue
 		}
